@@ -19,7 +19,13 @@ Polys == [ L |-> << <<0,0>>, <<4,0>>, <<4,1>>, <<1,1>>, <<1,3>>, <<0,3>> >>,
            sliver |-> << <<0,0>>, <<10,1>>, <<10,2>> >>,
            needle |-> << <<0,0>>, <<7,1>>, <<14,1>> >>,
            quad |-> << <<0,0>>, <<9,2>>, <<7,8>>, <<-2,5>> >>,
-           chevron |-> << <<0,0>>, <<1,0>>, <<3,3>>, <<1,4>>, <<0,4>>, <<2,2>> >> ]
+           chevron |-> << <<0,0>>, <<1,0>>, <<3,3>>, <<1,4>>, <<0,4>>, <<2,2>> >>,
+           \* four vertices, NOT rectangles: three axis-parallel sides and a slanted one (45 degrees / general), a parallelogram,
+           \* a square standing on a corner of its bounding box, an axis-parallel "bow tie"-free kite
+           trap45 |-> << <<0,0>>, <<0,6>>, <<4,6>>, <<4,4>> >>,
+           trapgen |-> << <<0,0>>, <<20,0>>, <<20,5>>, <<7,5>> >>,
+           para |-> << <<0,0>>, <<4,0>>, <<6,3>>, <<2,3>> >>,
+           kite |-> << <<0,0>>, <<5,0>>, <<5,5>>, <<3,2>> >> ]
 PolyVariants == UNION { { Rot(Polys[n], k) : k \in 0..(Len(Polys[n]) - 1) } \cup { Rot(Rev(Polys[n]), k) : k \in 0..(Len(Polys[n]) - 1) }
                         : n \in DOMAIN Polys }
 RectVariants == { << <<0,0>>, <<4,2>> >>, << <<4,2>>, <<0,0>> >>, << <<0,2>>, <<4,0>> >>, << <<4,0>>, <<0,2>> >>,
@@ -51,7 +57,7 @@ Multi == { Lib("Nano", << Cell("c", <<>>, << E(1, "Drawing", "rect", << <<0,0>>,
                                             E(2, "Pin", "path", << <<30,30>>, <<40,30>> >>, 2, "") >>) >>) }
      \cup { Lib("Nano", << Cell("c", <<>>, << E(1, "Drawing", "polygon", [i \in 1..8 |-> <<Polys.U[i][1] + 100, Polys.U[i][2]>>], 0, "u1"),
                                             E(1, "Drawing", "rect", << <<103,3>>, <<107,9>> >>, 0, "inner") >>) >>) }
-Orient == BOOLEAN \X {0, 90, 180, 270}
+Orient == BOOLEAN \X {-1, 0, 90, 180, 270}      \* -1: no angle given (None)
 LeafC == Cell("leaf", <<>>, << E(1, "Drawing", "rect", << <<1,2>>, <<4,3>> >>, 0, "x"), E(2, "Drawing", "path", << <<0,0>>, <<5,0>>, <<5,4>> >>, 2, "") >>)
 Hier == { Lib("Nano", << LeafC, Cell("mid", << I("leaf", <<3, 11>>, o2[1], o2[2]) >>, << E(1, "Pin", "rect", << <<0,0>>, <<2,2>> >>, 0, "") >>),
                          Cell("top", << I("mid", <<-7, 5>>, o1[1], o1[2]), I("leaf", <<40, 40>>, o2[1], o1[2]) >>, <<>>) >>)
